@@ -24,6 +24,8 @@ pub fn generate_queries(
         .collect();
 
     samples.sort();
+    // Queries are a set: repeated samples are merged (as in the Cairo verifier's usort).
+    samples.dedup();
     #[cfg(swiftness_verif)]
     swiftness_transcript::verif::ev("queries")
         .f("n", &n_samples)
